@@ -134,3 +134,8 @@ T("np.matmul", "out,square|(3,3)(3,3)", lambda a, b, out: np.matmul(a, b, out=ou
 T("ndarray.dot", "out,square|(3,3)(3,3)", lambda a, b, out: a.dot(b, out=out), {"a": I("X", (3, 3)), "b": I("Y", (3, 3)), "out": I("X", (3, 3), "zeros")}, cls="other", inplace=("out",))
 T("np.kron", "XY|(2,2)(2,2)", lambda a, b: np.kron(a, b), {"a": I("X", (2, 2)), "b": I("Y", (2, 2))}, cls="other")
 T("np.cross", "XY|(3,)(3,)", lambda a, b: np.cross(a, b), {"a": I("X", (3,)), "b": I("Y", (3,))}, cls="other")
+
+# ---- keyword arguments of einsum reach NumPy (hunt round: dtype / casting / order were dropped) ---------------------------
+T("np.einsum", "dtype-complex|(2,3)", lambda a: np.einsum("ij->i", a, dtype=complex), {"a": I("X", (2, 3))})
+T("np.einsum", "dtype-f4|(2,3)", lambda a: np.einsum("ij->i", a * 1.000000123, dtype=np.float32, casting="same_kind"), {"a": I("X", (2, 3))})
+T("np.einsum", "order-F|(2,3)", lambda a: np.einsum("ij->ji", a, order="F"), {"a": I("X", (2, 3))})
